@@ -204,6 +204,11 @@ def c04(ctx):
     absorb_bad(ctx, bad)
     bad2, ev2, h2, sk2 = run_traces(ctx, "repetition", 4 if quick else 12, 3 if quick else 30, 200)
     absorb_bad(ctx, bad2)
+    # "to any nesting depth": games of several hundred plies (counters beyond 255) taken back completely
+    bad3, ev3, h3, sk3 = run_traces(ctx, "clock", 4 if quick else 8, 2 if quick else 8, 340, label="long")
+    absorb_bad(ctx, bad3)
+    ev2 += ev3
+    h2 += h3
     ctx.evaluations += ev + ev2
     ctx.nontrivial += hist + h2
     ctx.extra["events_validated"] = ev + ev2
